@@ -12,7 +12,10 @@
 // holds in every round of every history: "one-step => all sequences of rounds" (the property quantifies to 32).
 // "What the terminal currently sees" is, by definition, the value of the real combined read
 // `<Terminal as Getter<TerminalData>>::get` on that terminal; it is used as the oracle and is itself bit-moved
-// data, never recomputed.
+// data, never recomputed.  Where a connected partner makes the combined state read an average, the crate's own
+// `<State as Div<f32>>::div` is replaced by a deterministic uninterpreted stand-in (kani::stub): the relay clauses
+// hold for every interpretation of that division (the oracle and the wrapper call the same function); without the
+// stub the solver spends two minutes proving two copies of the f32 divider equivalent.
 #![allow(unused_imports, dead_code, unused_mut)]
 use crate::*;
 use crate::verif_support::*;
@@ -213,6 +216,7 @@ fn actuator_post(rec: &Rec, want: &Option<TerminalData>, res: &NothingOrError<Er
 
 //@ob fn="<ActuatorWrapper<T,E> as Updatable<E>>::update" at=src/devices/wrappers.rs:32 clause="arbitrary terminal slots, optionally connected to a partner with arbitrary slots; inner outcomes symbolic: inner.set called exactly once with exactly (bit-equal time, command, state) the terminal's combined read, before update; nothing set when the read is None; update exactly once unless set was rejected; set error returned (update then not called); update error returned; terminal and partner left bit-untouched"
 #[kani::proof]
+#[kani::stub(<State as Div<f32>>::div, stub_state_div_f32)]
 fn c20_actuator_update_relays_combined_read() {
     let mut w = ActuatorWrapper { inner: Rec::any(), terminal: RefCell::new(any_slots_terminal()) };
     let partner: RefCell<Terminal<'_, Er>> = RefCell::new(any_slots_terminal());
@@ -660,6 +664,7 @@ fn time_in_range(td: &Option<TerminalData>) {
 
 //@ob fn="<PIDWrapper<T,E> as Updatable<E>>::update" at=src/devices/wrappers.rs:144 clause="first round on a wrapper in wiring W with a fresh CommandPID; clock, state, command, gains, terminal slots, optional partner terminal, motor outcomes all symbolic: with terminal data the shared clock becomes its time, the state/command getters take the present fields and keep the absent ones, the PID is updated after that (it took the command in; a fresh PID has an output after one update exactly for a position command, stamped with the new time) and THEN the motor, which receives exactly (bit-equal) the PID's present output, nothing if there is none; without terminal data clock/getters/PID are untouched and only the motor is updated; motor errors are returned; terminal and partner untouched"
 #[kani::proof]
+#[kani::stub(<State as Div<f32>>::div, stub_state_div_f32)]
 fn c20_pid_update_first_round() {
     let t0: Time = kani::any();
     let s0: State = kani::any();
